@@ -22,7 +22,7 @@ Emitted (all `Definition`s, no proofs):
 """
 import ast
 from fractions import Fraction
-from pycoq import parse_file, find_class, find_func, decorators, enum_members, TranslateError, fail
+from pycoq import parse_file, find_class, find_func, decorators, enum_members, TranslateError, fail, norm_function
 
 SRC_GRAPH = 'src/qce_circuit/structure/graph_traversal/intrf_graph_structure.py'
 SRC_OP = 'src/qce_circuit/structure/intrf_circuit_operation.py'
@@ -441,10 +441,12 @@ def pivot_shape(tree):
 def description_constants(tree):
     """construct_visual_description: `end_time: float = <floor>` ... channel_width=end_time + <margin>, channel_height=<h>;
     VisualCircuitDescription.channel_spacing = self.channel_height * <s>"""
-    fn = find_func(tree, 'construct_visual_description')
+    fn = norm_function(find_func(tree, 'construct_visual_description'), guards=False, accumulate=False, single_use=False, helpers=False)
     floor = None
-    for s in fn.body:
-        if isinstance(s, ast.AnnAssign) and isinstance(s.target, ast.Name) and s.target.id == 'end_time':
+    for s in fn.body:       # after N1 (annotation dropped): the one top-level `end_time = <floor>`
+        if isinstance(s, ast.Assign) and len(s.targets) == 1 and isinstance(s.targets[0], ast.Name) and s.targets[0].id == 'end_time':
+            if floor is not None:
+                fail(s, "construct_visual_description: end_time initialised twice")
             floor = num_const(s.value, 'construct_visual_description end_time')
     rets = [s for s in fn.body if isinstance(s, ast.Return)]
     if floor is None or len(rets) != 1 or not isinstance(rets[0].value, ast.Call) or getattr(rets[0].value.func, 'id', '') != 'VisualCircuitDescription':
@@ -512,16 +514,20 @@ def bulk_manager_shape(tree_ifac, tree_multi):
     grp = find_func(find_class(tree_ifac, 'BulkDrawComponentFactoryManager'), 'construct')
     if not contains(grp, lambda x: isinstance(x, ast.If) and ast.unparse(x.test) == 'isinstance(operation, TwoQubitOperation)'):
         fail(grp, "BulkDrawComponentFactoryManager.construct: grouping of TwoQubitOperation instances")
-    m = find_func(find_class(tree_multi, 'MultiTwoQubitBlockFactory'), 'construct')
+    m = norm_function(find_func(find_class(tree_multi, 'MultiTwoQubitBlockFactory'), 'construct'),
+                      guards=False, accumulate=False, single_use=False, helpers=False)     # N1 only
     skips = contains(m, lambda x: isinstance(x, ast.If) and ast.unparse(x.test) == 'type(operation.operation) not in self.factory_lookup'
                      and len(x.body) == 1 and isinstance(x.body[0], ast.Continue))
     scalar = None
     formulas = {}
     for s in ast.walk(m):
-        if isinstance(s, ast.AnnAssign) and isinstance(s.target, ast.Name) and s.value is not None:
-            if s.target.id == 'scalar':
+        if isinstance(s, ast.Assign) and len(s.targets) == 1 and isinstance(s.targets[0], ast.Name):
+            name = s.targets[0].id
+            if name in formulas and name in ('scalar', 'bounded_offset', 'duration_scaling', 'offset_scalar'):
+                fail(s, f"MultiTwoQubitBlockFactory.construct: {name} assigned twice")
+            if name == 'scalar':
                 scalar = Fraction(str(num_const(s.value, 'offset scalar')))
-            formulas[s.target.id] = ast.unparse(s.value)
+            formulas[name] = ast.unparse(s.value)
     # the offset handed to OffsetTransformConstructor (which multiplies it by the duration once more): either the shape
     # of the current tree (already scaled by the duration: the shift is quadratic in the duration) or the dimensionless
     # fraction (shift linear in the duration)
@@ -559,6 +565,10 @@ def loop_safety_passes(tree):
     init = next((n for n in cls.body if isinstance(n, ast.FunctionDef) and n.name == '__init__'), None)
     if fn is None or init is None:
         raise TranslateError("WhileLoopSafety.safety_condition / __init__ not found")
+    # annotated assignments (`self.counter: int = 0`) are read as plain assignments (pycoq N1: annotations of attribute targets and
+    # locals inside a function body are never evaluated)
+    init = norm_function(init, guards=False, accumulate=False, single_use=False, helpers=False)
+    fn = norm_function(fn, guards=False, accumulate=False, single_use=False, helpers=False)
     if 'self.counter = 0' not in [ast.unparse(x) for x in init.body]:
         raise TranslateError("WhileLoopSafety.__init__: counter does not start at 0")
     body = strip_doc(fn.body)
